@@ -609,7 +609,7 @@ def _steps(pl):
 
 def worker(job):
     cid, slice_, P, L, k, seed = job
-    rec = {"cid": cid, "slice": slice_, "P": P, "skip": "", "safe": 0, "W": None, "reads": []}
+    rec = {"cid": cid, "slice": slice_, "P": P, "skip": "", "safe": 0, "W": None, "reads": [], "job": [cid, slice_, P, L, k, seed]}
     try:
         temporal = slice_ == "tmp"
         plans = []
@@ -728,10 +728,10 @@ def _requirement(msg):
     return m.group(1) if m else "?"
 
 
-def run_judges(ctx, rt, bis, index):
+def run_judges(ctx, rt, bis, index, tag=""):
     """returns (fails, tallies, valid, unspec): fails = [(cid, pi, clause, detail)]"""
     fails, tallies, valid, unspec = [], {}, set(), 0
-    d = ctx.sub("roundtrip")
+    d = ctx.sub("roundtrip" + tag)
     path = os.path.join(d, "batch.ndjson")
     tlc.write_ndjson(path, rt)
     res = tlc.run_tlc("PddlRoundTrip", CFG, d, env={"BATCH": path}, workers=8, timeout=3000, heap="12g")
@@ -755,7 +755,7 @@ def run_judges(ctx, rt, bis, index):
     nb = 0
     for depth in sorted(bis):
         batch = bis[depth]
-        d = ctx.sub("bisim-%d" % depth)
+        d = ctx.sub("bisim%s-%d" % (tag, depth))
         path = os.path.join(d, "batch.ndjson")
         tlc.write_ndjson(path, batch)
         res = tlc.run_tlc("Bisim", CFG_BISIM, d, env={"BATCH": path}, workers=8, timeout=3000, heap="12g")
@@ -776,6 +776,31 @@ def run_judges(ctx, rt, bis, index):
     return fails, tallies, valid, unspec, nb
 
 
+def judge_records(ctx, recs, D, skipped=None, tag=""):
+    """TLC judges the recorded round trips; every FAIL becomes a violation with its signature"""
+    rt, bis, index = build_batches(recs, D)
+    if not rt:
+        raise MachineryError("no problem could be built: %r" % (skipped,))
+    fails, tallies, valid, unspec, nb = run_judges(ctx, rt, bis, index, tag)
+    for (cid, pi, clause, detail) in fails:
+        rec, R = index[cid]
+        feats = features(rec["P"], rec["W"])
+        reader = R["reader"] if R is not None else "writer"
+        extra = ""
+        if clause == "ai-reader-missing-requirement":
+            extra = _requirement(R["rmsg"]) + ("@problem-file" if "problem.py" in R.get("rwhere", "") else "@domain-file")
+        sig = signature(reader, clause, feats, extra)
+        data = {"clause": clause, "detail": detail, "slice": rec["slice"], "features": feats, "problem": rec["P"], "job": rec.get("job"),
+                "domain_pddl": rec["W"]["dom"], "problem_pddl": rec["W"]["prob"], "writer_exception": [rec["W"]["wexc"], rec["W"]["wmsg"]]}
+        if R is not None:
+            data.update(reader=R["reader"], reader_exception=[R["rexc"], R["rmsg"], R.get("rwhere", "")], reread=R["B"],
+                        unknown_names=R["miss"])
+            if pi > 0:
+                data["plan"] = R["plans"][pi - 1]
+        ctx.violation(sig, "C18 %s: %s %s" % (reader, clause, detail), data)
+    return rt, index, tallies, valid, unspec, nb
+
+
 def run(ctx):
     q = ctx.quick
     counts = dict(num=22, ai=18, bnd=8, tmp=20) if q else dict(num=260, ai=200, bnd=60, tmp=200)
@@ -794,26 +819,7 @@ def run(ctx):
             skipped[r["skip"]] = skipped.get(r["skip"], 0) + 1
             if r["skip"].startswith("HARNESS"):
                 raise MachineryError("driver error: %s" % r.get("detail"))
-    rt, bis, index = build_batches(recs, D)
-    if not rt:
-        raise MachineryError("no problem could be built: %r" % skipped)
-    fails, tallies, valid, unspec, nb = run_judges(ctx, rt, bis, index)
-    for (cid, pi, clause, detail) in fails:
-        rec, R = index[cid]
-        feats = features(rec["P"], rec["W"])
-        reader = R["reader"] if R is not None else "writer"
-        extra = ""
-        if clause == "ai-reader-missing-requirement":
-            extra = _requirement(R["rmsg"]) + ("@problem-file" if "problem.py" in R.get("rwhere", "") else "@domain-file")
-        sig = signature(reader, clause, feats, extra)
-        data = {"clause": clause, "detail": detail, "slice": rec["slice"], "features": feats, "problem": rec["P"],
-                "domain_pddl": rec["W"]["dom"], "problem_pddl": rec["W"]["prob"], "writer_exception": [rec["W"]["wexc"], rec["W"]["wmsg"]]}
-        if R is not None:
-            data.update(reader=R["reader"], reader_exception=[R["rexc"], R["rmsg"], R.get("rwhere", "")], reread=R["B"],
-                        unknown_names=R["miss"])
-            if pi > 0:
-                data["plan"] = R["plans"][pi - 1]
-        ctx.violation(sig, "C18 %s: %s %s" % (reader, clause, detail), data)
+    rt, index, tallies, valid, unspec, nb = judge_records(ctx, recs, D, skipped)
     nplans = sum(len(r["plans"]) for r in rt)
     ctx.cov["unspecified"] += unspec
     ctx.cov["evaluations"] = len(rt) + nplans
@@ -848,3 +854,144 @@ def run(ctx):
         "writer rejections (documented exception classes) and failures inside the third-party grammar are outside the fragment: tallied, not judged",
         "temporal sub-corpus: durations / conditions / effects are compared by value on sample states (initial state + states of the seeded plans' runs)",
     ]
+
+
+# ----------------------------------------------------------------------------------------
+# replay / selftest
+# ----------------------------------------------------------------------------------------
+def replay(ctx, data):
+    """re-run the round trip of a replay file against the current tree; 1 if its signature shows again"""
+    job = data["data"].get("job")
+    if not job:
+        raise MachineryError("replay file without a job")
+    with Pool(1, maxtasksperchild=1) as pool:
+        recs = pool.map(worker, [tuple(job)])
+    if recs[0]["skip"]:
+        raise MachineryError("replay: %s %s" % (recs[0]["skip"], recs[0].get("detail")))
+    judge_records(ctx, recs, 3 if ctx.quick else 4)
+    sigs = sorted({v.sig for v in ctx.violations})
+    for sg in sigs:
+        print("replay: %s" % sg)
+    again = data["signature"] in sigs
+    print("replay: signature %s %s" % (data["signature"], "reproduced" if again else "NOT reproduced"))
+    return 1 if again else 0
+
+
+def _first(recs, pred):
+    for rec in recs:
+        if rec["skip"] or rec["W"]["wexc"] != "none":
+            continue
+        for R in rec["reads"]:
+            if R["B"] is not None and pred(rec, R):
+                return rec, R
+    raise MachineryError("selftest: no suitable clean record")
+
+
+def selftest(ctx):
+    """vacuity: corrupting ONE recorded field of a clean round trip makes the judges reject it with the
+    expected clause (one corruption per clause family); the uncorrupted records are accepted"""
+    rng = random.Random(12345)
+    corpus = make_corpus(rng, dict(num=10, ai=0, bnd=0, tmp=24))
+    jobs = [(i + 1, sl, P, 3, 4, 777 + i) for i, (sl, P) in enumerate(corpus)]
+    with Pool(NPROC, maxtasksperchild=1) as pool:
+        recs = pool.map(worker, jobs, chunksize=1)
+    clean = [r for r in recs if not r["skip"] and r["W"]["wexc"] == "none"
+             and all(R["rexc"] == "none" for R in r["reads"] if R["reader"] == "up")]
+    for r in clean:
+        r["reads"] = [R for R in r["reads"] if R["reader"] == "up"]
+    judge_records(ctx, clean, 2, tag="-clean")
+    if ctx.violations:
+        raise MachineryError("selftest: clean records rejected: %r" % sorted({v.sig for v in ctx.violations}))
+    cases = []
+
+    def case(name, expect, rec, R, edit):
+        rec2 = copy.deepcopy(rec)
+        R2 = copy.deepcopy(R)
+        rec2["reads"] = [R2]
+        rec2["cid"] = len(cases) + 1
+        edit(rec2, R2)
+        cases.append((name, expect, rec2))
+
+    neg = lambda e: upj.E("not", [e])
+    # classical: a precondition of the re-read problem negated
+    rec, R = _first(clean, lambda rec, R: rec["slice"] == "num" and any(a["pre"] for a in R["B"]["actions"]) and rec["safe"] >= 2)
+
+    def e1(rec2, R2):
+        a = next(a for a in R2["B"]["actions"] if a["pre"])
+        a["pre"][0] = neg(a["pre"][0])
+    case("negated-precondition", "applicability-", rec, R, e1)
+    # an initial value flipped
+    rec, R = _first(clean, lambda rec, R: rec["slice"] == "num" and any(i["v"]["k"] == "b" for i in R["B"]["init"]))
+
+    def e2(rec2, R2):
+        i = next(i for i in R2["B"]["init"] if i["v"]["k"] == "b")
+        i["v"] = upj.BV(not i["v"]["b"])
+    case("flipped-initial-value", "initial-state-differs", rec, R, e2)
+    # an object lost
+    case("lost-object", "ground-fluents-differ|objects-differ", rec, R, lambda rec2, R2: R2["B"]["objects"].pop())
+    # plans
+    rec, R = _first(clean, lambda rec, R: rec["slice"] == "num" and any(len(p["steps"]) >= 2 and p["back"] == p["steps"] for p in R["plans"]))
+
+    def e4(rec2, R2):
+        p = next(p for p in R2["plans"] if len(p["steps"]) >= 2)
+        p["back"] = list(reversed(p["back"])) if p["back"][0] != p["back"][-1] else p["back"][:-1]
+    case("reordered-parsed-plan", "parsed-plan-differs", rec, R, e4)
+
+    def e5(rec2, R2):
+        R2["plans"][0]["bexc"] = "KeyError"
+    case("plan-parse-exception", "plan-parse-raises-KeyError", rec, R, e5)
+
+    def e6(rec2, R2):
+        R2["rexc"], R2["B"] = "ParseException", None
+    case("up-reader-exception", "up-reader-raises-ParseException", rec, R, e6)
+    # temporal
+    isdur = lambda a: a["kind"] == "dur"
+    rec, R = _first(clean, lambda rec, R: rec["slice"] == "tmp" and any(isdur(a) for a in R["B"]["actions"]))
+
+    def t1(rec2, R2):
+        a = next(a for a in R2["B"]["actions"] if isdur(a))
+        a["dur"]["lo"] = upj.E("plus", [a["dur"]["lo"], upj.E("const", v=upj.NV(1))])
+    case("duration-lower-bound", "duration-lower-differs", rec, R, t1)
+
+    def t2(rec2, R2):
+        a = next(a for a in R2["B"]["actions"] if isdur(a))
+        a["dur"]["ropen"] = not a["dur"]["ropen"]
+    case("duration-openness", "duration-openness-differs", rec, R, t2)
+    rec, R = _first(clean, lambda rec, R: rec["slice"] == "tmp" and any(isdur(a) and a["effects"] for a in R["B"]["actions"]))
+
+    def t3(rec2, R2):
+        a = next(a for a in R2["B"]["actions"] if isdur(a) and a["effects"])
+        for te in a["effects"]:
+            te["t"]["from"] = "end" if te["t"]["from"] == "start" else "start"
+    case("effect-timing-swapped", "effects-at-", rec, R, t3)
+    rec, R = _first(clean, lambda rec, R: rec["slice"] == "tmp" and any(isdur(a) and a["conds"] for a in R["B"]["actions"]))
+
+    def t4(rec2, R2):
+        a = next(a for a in R2["B"]["actions"] if isdur(a) and a["conds"])
+        for c in a["conds"]:
+            c["c"] = neg(c["c"])
+    case("condition-negated", "condition-", rec, R, t4)
+    rec, R = _first(clean, lambda rec, R: rec["slice"] == "tmp" and R["B"]["timed_effects"])
+
+    def t5(rec2, R2):
+        R2["B"]["timed_effects"][0]["t"]["delay"] = upj.NV(Fraction(7, 4))
+    case("til-instant-moved", "timed-initial-literals-differ", rec, R, t5)
+    rec, R = _first(clean, lambda rec, R: rec["slice"] == "tmp" and any(p["kind"] == "tt" and p["steps"] for p in R["plans"]))
+
+    def t6(rec2, R2):
+        p = next(p for p in R2["plans"] if p["steps"])
+        p["back"][0]["t"] = upj.NV(Fraction(p["back"][0]["t"]["n"], p["back"][0]["t"]["d"]) + Fraction(1, 8))
+    case("tt-plan-start-time", "parsed-plan-differs", rec, R, t6)
+    ok = True
+    for name, expect, rec2 in cases:
+        c2 = type(ctx)(ctx.pid, ctx.tier, ctx.seed)
+        c2.work = ctx.sub("case-" + name)
+        judge_records(c2, [rec2], 2, tag="-" + name)
+        clauses = sorted({v.data["clause"] for v in c2.violations})
+        hit = any(cl.startswith(e) for cl in clauses for e in expect.split("|"))
+        print("selftest %-26s expected %-34s got %s" % (name, expect, clauses))
+        ok = ok and hit
+        for r in c2.cov["tlc_runs"]:
+            ctx.cov["tlc_runs"].append(r)
+    print("selftest: %d clean records accepted, %d corruptions, %s" % (len(clean), len(cases), "all rejected" if ok else "SOME ACCEPTED"))
+    return 0 if ok else 2
